@@ -388,7 +388,18 @@ class Model:
         return need(self.modules.get(short), f"module {short} not found in {PKG}")
 
     def func(self, qualname: str) -> FuncInfo:
-        return need(self.functions.get(qualname), f"anchor function {qualname} not found")
+        f = self.functions.get(qualname)
+        if f is None and qualname.count(".") == 1:
+            # a module-level name re-bound to a function defined elsewhere (`name = Class.method`)
+            modshort, name = qualname.split(".")
+            mod = self.modules.get(modshort)
+            if mod is not None:
+                vals = mod.assigns.get(name, [])
+                if len(vals) == 1 and vals[0] is not None:
+                    r = self.resolve_expr_static(mod, vals[0])
+                    if isinstance(r, FuncInfo):
+                        return r
+        return need(f, f"anchor function {qualname} not found")
 
     def func_opt(self, qualname: str) -> Optional[FuncInfo]:
         return self.functions.get(qualname)
@@ -433,6 +444,11 @@ class Model:
                     return Binding("func", f, dotted)
                 return Binding("classattr", (c, rest[1]), dotted)
         if name in m.assigns and len(rest) == 1:
+            vals = m.assigns[name]
+            if len(vals) == 1 and isinstance(vals[0], ast.Attribute):
+                r = self.resolve_expr_static(m, vals[0])
+                if isinstance(r, FuncInfo):
+                    return Binding("func", r, dotted)
             return Binding("modvar", (m, name), dotted)
         if name in m.imports:
             tgt = m.imports[name]
@@ -486,6 +502,16 @@ class Model:
             b.name = name
             return b
         if name in m.assigns:
+            vals = m.assigns[name]
+            if len(vals) == 1 and isinstance(vals[0], ast.Attribute) and not getattr(self, "_resolving_alias", False):
+                # `name = Class.method` / `name = module.func`: an alias of a function
+                self._resolving_alias = True
+                try:
+                    r = self.resolve_expr_static(m, vals[0])
+                finally:
+                    self._resolving_alias = False
+                if isinstance(r, FuncInfo):
+                    return Binding("func", r, name, owner=m)
             return Binding("modvar", (m, name), name, owner=m)
         if hasattr(builtins, name):
             return Binding("builtin", f"builtins.{name}", name)
